@@ -94,7 +94,8 @@ ThreadEvent(e) ==
      [] e.m = "OHr" -> Legal({"paused", "warming"}, "running", t)
      [] e.m = "OHc" -> Legal({"running"}, "cooling", t)
      [] e.m = "OHw" -> Legal({"paused"}, "warming", t)
-     [] e.m = "OHC" -> Accept(thState, thCpu)            \* thread creation: informative only
+     [] e.m = "OHC" -> IF Len(e.a) < 2 THEN Reject       \* payload (i32 cpu, u64 tag) incomplete
+                       ELSE Accept(thState, thCpu)       \* thread creation: informative only
      [] e.m = "OAs" ->
           IF thCpu[t] = 0 \/ ~IsActive(s) \/ Len(e.a) # 1 THEN Reject
           ELSE LET c == CpuByIndex(sys.threads[t].loom, e.a[1]) IN
@@ -106,7 +107,8 @@ ThreadEvent(e) ==
                    c == CpuByIndex(sys.threads[t].loom, e.a[1]) IN
                IF u = 0 THEN Reject
                ELSE IF thState[u] \in {"dead", "unknown"} \/ thCpu[u] = 0 \/ c = 0 THEN Reject
-               ELSE IF thCpu[u] = c THEN Unspec           \* not defined by C05 (code refuses)
+               \* a remote affinity change to the CPU the thread is already on is the identity (as the
+               \* local one; the pinned code aborted on it: "fix: emu: accept a remote affinity change ...")
                ELSE Accept(thState, [thCpu EXCEPT ![u] = c])
      [] OTHER -> Reject
 
